@@ -580,6 +580,22 @@ func (g *wGen) opClose(wc *wConn, h int) {
 	if err == nil && !om.closed {
 		wc.sent = append(wc.sent, apiMsg{t: om.t, payload: om.all})
 	}
+	if err == nil && om.closed && (om.t == 1 || om.t == 2) {
+		// Close of a writer that had already been ended (by the next NextWriter / WriteMessage / … or by an
+		// earlier Close) reported success: then the message must really be on the wire, complete (C09: a
+		// message that was not sent is never reported as sent)
+		fr, _, _ := rfcDecode(wc.t.wire)
+		ms, _ := rfcMessages(fr)
+		found := false
+		for _, m := range ms {
+			if m.complete && m.inflateErr == "" && m.op == om.t && bytes.Equal(m.payload, om.all) {
+				found = true
+			}
+		}
+		if !found {
+			g.sc.violate("%s: Close of writer u%d returned nil although its message (type %d, %d bytes) is not on the wire", wc.id, h, om.t, len(om.all))
+		}
+	}
 	om.closed = true
 	if om == wc.cur {
 		wc.live = false
